@@ -14,6 +14,7 @@ struct PutObs {
 	std::vector<std::streamsize> strOffsets;
 	std::vector<nifly::NiRef*> refPtrs;
 	std::vector<nifly::NiStringRef*> strPtrs;
+	std::vector<std::string> strTexts; // text of each string reference at the time it was written
 
 	static void onRef(void* ctx, nifly::NiRef* r, bool writing, std::streamsize off) {
 		if (!writing)
@@ -28,6 +29,7 @@ struct PutObs {
 		auto o = static_cast<PutObs*>(ctx);
 		o->strPtrs.push_back(r);
 		o->strOffsets.push_back(off);
+		o->strTexts.push_back(r->get());
 	}
 };
 
@@ -69,6 +71,7 @@ inline uint32_t rd32(const std::string& s, size_t off) {
 //  - optionally each block-reference field is replaced through `refMap` (or masked)
 struct CanonOpts {
 	const std::vector<std::string>* strings = nullptr; // table the indices refer to
+	bool stringsByText = false;						   // use the in-memory text of each string reference instead
 	bool maskRefs = false;
 	const std::vector<uint32_t>* refMap = nullptr; // old index -> canonical id
 };
@@ -98,7 +101,9 @@ inline std::string canonPayload(const PutObs& o, const CanonOpts& opt) {
 		}
 		else {
 			si++;
-			if (opt.strings) {
+			if (opt.stringsByText && si - 1 < o.strTexts.size())
+				out += "<S:" + o.strTexts[si - 1] + ">";
+			else if (opt.strings) {
 				if (v == 0xFFFFFFFFu)
 					out += "<S->";
 				else if (v < opt.strings->size())
